@@ -238,6 +238,26 @@ def completion_run(params, chooser):
                                                   obs['result']))
 
 
+# Replies with a line longer than the 64 KiB StreamReader limit: how much of such a line
+# asyncio discards depends on how much of it was buffered, so any attempt to "skip" it is
+# segmentation dependent; two replies are read so that a desynchronised stream shows.
+_LONGX = 'x' * 65600
+LONG_REPLIES = {
+    'cont-long': '220-Welcome\r\n' + _LONGX + '230 tail looks like a reply\r\n'
+                 '220 Service ready\r\n331 next\r\n',
+    'first-long': '220 ' + _LONGX + '\r\n331 next\r\n',
+    'final-long': '220-Welcome\r\n220 ' + _LONGX + ' 230 x\r\n331 next\r\n',
+    'cont-long-lf': '220-Welcome\n ' + _LONGX + '\n220 ok\n331 next\n',
+}
+
+
+def long_plans(n):
+    plans = [[], [5], [20, 65536 + 20], [65536 + 30], [66000], [65000, 65700],
+             list(range(1000, n, 1000)), list(range(4096, n, 4096)), [n - 5], [n - 30, n - 12],
+             list(range(1, n, 997))]
+    return [[c for c in p if 0 < c < n] for p in plans]
+
+
 # ------------------------------------------------------------------ jobs
 def jobs(tier, seed):
     js = []
@@ -249,6 +269,8 @@ def jobs(tier, seed):
     js.append(dict(kind='inject', urls=pair_urls(), mode='file'))
     for name in REPLIES:
         js.append(dict(kind='reply', name=name, tier=tier))
+    for name in LONG_REPLIES:
+        js.append(dict(kind='reply-long', name=name, tier=tier))
     for mode in ('normal', '426', 'ctrl-close', 'no-data-eof', 'no-226'):
         js.append(dict(kind='completion', end_mode=mode))
         if tier != 'quick':
@@ -297,6 +319,35 @@ def run_job(job):
                     res['violations'].append(dict(violation='%s [%s]' % (v, u), signature=sig,
                                                   kind='inject', url=u, mode=job['mode']))
         res['samples'].append(dict(kind='injection', example=job['urls'][0], n=len(job['urls'])))
+    elif job['kind'] == 'reply-long':
+        data = LONG_REPLIES[job['name']].encode('latin-1')
+        n = len(data)
+        one_shot = read_replies(data, [], 2)
+        for cuts in long_plans(n):
+            got = read_replies(data, cuts, 2)
+            res['evaluations'] += 1
+            res['transitions'] += len(cuts) + 1
+            res['states'].add(h64((job['name'], tuple(cuts[:3]), len(cuts))))
+            k = repr([(g[0], (g[1] or '')[:20]) for g in got])[:80]
+            res['outcomes'][k] = res['outcomes'].get(k, 0) + 1
+            v = None
+            if any(g[0] in ('UNEXPECTED', 'hang') for g in got):
+                v = 'reading replies gives %r' % (got[-1],)
+            elif [(g[0], len(g[1] or '')) for g in got] != \
+                    [(g[0], len(g[1] or '')) for g in one_shot]:
+                v = ('replies depend on the segmentation: %r delivered whole, %r with cuts %s'
+                     % ([(g[0], (g[1] or '')[:30]) for g in one_shot],
+                        [(g[0], (g[1] or '')[:30]) for g in got], cuts[:4]))
+            if v:
+                sig = 'C17:reply-long:%s' % job['name']
+                if sig not in seen:
+                    seen.add(sig)
+                    res['violations'].append(dict(violation='%s [%s]' % (v, job['name']),
+                                                  signature=sig, kind='reply-long',
+                                                  name=job['name'], cuts=cuts))
+        res['distinct'].add(h64(('reply-long', job['name'])))
+        res['samples'].append(dict(kind='over-long reply line', name=job['name'], bytes=n,
+                                   plans=len(long_plans(n))))
     elif job['kind'] == 'reply':
         data = REPLIES[job['name']].encode('latin-1')
         n = len(data)
@@ -391,6 +442,14 @@ def replay(rec):
         v = judge_commands(rec['url'], obs, rec['mode'])
         return (rec['violation'] if v else None), (rec['signature'] if v else None), \
             obs['writes']
+    if rec['kind'] == 'reply-long':
+        data = LONG_REPLIES[rec['name']].encode('latin-1')
+        one_shot = read_replies(data, [], 2)
+        got = read_replies(data, rec['cuts'], 2)
+        bad = any(g[0] in ('UNEXPECTED', 'hang') for g in got) or \
+            [(g[0], len(g[1] or '')) for g in got] != [(g[0], len(g[1] or '')) for g in one_shot]
+        return (rec['violation'] if bad else None), (rec['signature'] if bad else None), \
+            repr([(g[0], len(g[1] or '')) for g in got])
     if rec['kind'] == 'reply-trunc':
         data = REPLIES[rec['name']].encode('latin-1')[:rec['t']]
         nrep = 2 if rec['name'] in ('two', 'digits3') else 1
